@@ -580,6 +580,17 @@ func c04Discharge(w *World, c *Check, bc *boundsCtx, fn *ssa.Function, ob *c04Ob
 					if tupleAssertOK(bc, call, ex.Index, ta) {
 						return true, "callee-returns-that-type"
 					}
+					// v, ok := G.Load(k) of a package-level sync.Map into which the module only ever
+					// stores values of the asserted type, asserted where ok is known to hold
+					if n := calleeName(f); n == "sync.(*Map).Load" && ex.Index == 0 {
+						if g, isG := call.Call.Args[0].(*ssa.Global); isG && syncMapHomogeneous(w, g, ta.AssertedType) {
+							for _, dc := range domConds(ta.Block()) {
+								if e1, isE := dc.cond.(*ssa.Extract); isE && e1.Tuple == call && e1.Index == 1 && dc.holds {
+									return true, "homogeneous-sync-map"
+								}
+							}
+						}
+					}
 				}
 			}
 		}
@@ -666,7 +677,7 @@ func allocBoundedAt(bc *boundsCtx, l lin, at ssa.Instruction) (bool, string) {
 		return true, "alloc-constant-bound"
 	}
 	facts := bc.factsAt(l, at)
-	if bc.prove(l.plus(-(1<<24)), facts, 4) || bc.provePerEtype(l.plus(-(1<<24)), facts) {
+	if bc.prove(l.plus(-(1<<24)), facts, 4) || bc.provePerEtype(l.plus(-(1<<24)), facts, at) {
 		return true, "alloc-constant-bound"
 	}
 	cands := map[atom]bool{}
@@ -965,6 +976,44 @@ func tupleAssertOK(bc *boundsCtx, call *ssa.Call, k int, ta *ssa.TypeAssert) boo
 			return false
 		}
 		n++
+	}
+	return n > 0
+}
+
+// syncMapHomogeneous: every Store/LoadOrStore/Swap on the package-level sync.Map g anywhere in the
+// module stores a value of static type t.
+func syncMapHomogeneous(w *World, g *ssa.Global, t types.Type) bool {
+	n := 0
+	for _, fn := range w.ModuleFuncs() {
+		for _, b := range fn.Blocks {
+			for _, in := range b.Instrs {
+				call, ok := in.(ssa.CallInstruction)
+				if !ok {
+					continue
+				}
+				f := call.Common().StaticCallee()
+				if f == nil {
+					continue
+				}
+				vi := -1
+				switch calleeName(f) {
+				case "sync.(*Map).Store", "sync.(*Map).LoadOrStore", "sync.(*Map).Swap":
+					vi = 2
+				case "sync.(*Map).CompareAndSwap":
+					vi = 3
+				default:
+					continue
+				}
+				if call.Common().Args[0] != ssa.Value(g) {
+					continue
+				}
+				mi, isMI := call.Common().Args[vi].(*ssa.MakeInterface)
+				if !isMI || !types.Identical(mi.X.Type(), t) {
+					return false
+				}
+				n++
+			}
+		}
 	}
 	return n > 0
 }
